@@ -992,30 +992,8 @@ func (fc *FuncCtx) cbAt(fv *FuncVal, args []Term, k Term, elem *Sort) Term {
 	return App(elem, n, append(append([]Term(nil), args...), k)...)
 }
 
-// callCallback: a call of a function-typed parameter.  Result = pure function of the arguments; the
-// call is appended to the parameter's ghost trace; the callback is frame-respecting (may allocate,
-// never writes an existing cell).
-func (fc *FuncCtx) callCallback(fv *FuncVal, args []Term, call *ast.CallExpr, st *St) []Term {
-	if like, ok := fc.Con.ParamSpecs[fv.Name]; ok && strings.HasPrefix(like, "like ") {
-		// the parameter behaves like a declared function: its calls go through that function's contract
-		target, mapping, err := parseLike(like)
-		key := fc.Pkg.Name + "." + target
-		con := fc.E.CS.Funcs[key]
-		ref := fc.E.FuncDecl[key]
-		if err != nil || con == nil || ref == nil {
-			fc.unsupported(st, "bad like-contract of parameter "+fv.Name, fc.pos(call))
-			return fc.deadResults(call)
-		}
-		full := make([]Term, len(mapping))
-		for i, m := range mapping {
-			if m >= 0 && m < len(args) {
-				full[i] = args[m]
-			} else {
-				full[i] = Term{S: "0", Sort: &Sort{Kind: KFunc}}
-			}
-		}
-		return fc.callByContract(con, ref, ref.Obj, full, call, st)
-	}
+// recordCallbackTrace appends one call to the ghost trace of a function-typed parameter.
+func (fc *FuncCtx) recordCallbackTrace(fv *FuncVal, args []Term, st *St) {
 	name := fv.Name
 	n, ok := st.trn[name]
 	if !ok {
@@ -1035,6 +1013,37 @@ func (fc *FuncCtx) callCallback(fv *FuncVal, args []Term, call *ast.CallExpr, st
 	}
 	st.tra[name] = na
 	st.trn[name] = fc.nameIt(st, "trn", Add(n, IntLit(1)))
+}
+
+// callCallback: a call of a function-typed parameter.  Result = pure function of the arguments; the
+// call is appended to the parameter's ghost trace; the callback is frame-respecting (may allocate,
+// never writes an existing cell).
+func (fc *FuncCtx) callCallback(fv *FuncVal, args []Term, call *ast.CallExpr, st *St) []Term {
+	if like, ok := fc.Con.ParamSpecs[fv.Name]; ok && strings.HasPrefix(like, "like ") {
+		// the parameter behaves like a declared function: its calls go through that function's contract
+		target, mapping, err := parseLike(like)
+		key := fc.Pkg.Name + "." + target
+		con := fc.E.CS.Funcs[key]
+		ref := fc.E.FuncDecl[key]
+		if err != nil || con == nil || ref == nil {
+			fc.unsupported(st, "bad like-contract of parameter "+fv.Name, fc.pos(call))
+			return fc.deadResults(call)
+		}
+		full := make([]Term, len(mapping))
+		for i, m := range mapping {
+			if m >= 0 && m < len(args) {
+				full[i] = args[m]
+			} else if m <= -2 {
+				full[i] = IntLit(int64(-(m + 2)))
+			} else {
+				full[i] = Term{S: "0", Sort: &Sort{Kind: KFunc}}
+			}
+		}
+		// the call is also recorded in the parameter's ghost trace (calls(p), arg(p, k) stay usable)
+		fc.recordCallbackTrace(fv, args, st)
+		return fc.callByContract(con, ref, ref.Obj, full, call, st)
+	}
+	fc.recordCallbackTrace(fv, args, st)
 	fc.Assumed["callbacks are total, side-effect-free on library-visible state, and frame-respecting (they never write a slice cell that existed before they were called)"] = true
 	if fc.SliceMode == "heap" {
 		// allocation by the callback
@@ -1785,6 +1794,13 @@ func parseLike(s string) (string, []int, error) {
 			var k int
 			fmt.Sscan(a[1:], &k)
 			m = append(m, k)
+		} else if strings.HasPrefix(a, "#") {
+			// an integer constant at this position: encoded as -(c+2)
+			var c int
+			if _, err := fmt.Sscan(a[1:], &c); err != nil || c < 0 {
+				return "", nil, fmt.Errorf("bad like constant %q", a)
+			}
+			m = append(m, -(c + 2))
 		} else {
 			return "", nil, fmt.Errorf("bad like argument %q", a)
 		}
@@ -1842,6 +1858,13 @@ func (fc *FuncCtx) checkLikeArg(like string, fv *FuncVal) string {
 			}
 		}
 		for i, m := range mapping {
+			if m <= -2 {
+				bl, ok := ast.Unparen(call.Args[i]).(*ast.BasicLit)
+				if !ok || bl.Value != fmt.Sprint(-(m+2)) {
+					return fmt.Sprintf("argument %d of the call is not the constant %d", i, -(m + 2))
+				}
+				continue
+			}
 			if m < 0 {
 				continue
 			}
